@@ -13,6 +13,7 @@ RULES = {
     'J1': state.rule_J1, 'J2': state.rule_J2, 'M': state.rule_M, 'D1': state.rule_D1, 'D3': state.rule_D3,
     'HASH': state.rule_HASH, 'N3': state.rule_N3,
     'A1': ownership.rule_A1, 'A3': ownership.rule_A3, 'A4': ownership.rule_A4, 'A9': ownership.rule_A9,
+    'A10': ownership.rule_A10,
     'A2': ownership.rule_A2, 'A5': ownership.rule_A5, 'A6': ownership.rule_A6, 'A7': ownership.rule_A7, 'A8': ownership.rule_A8,
     'H5a': luts.rule_H5a, 'H5b': luts.rule_H5b, 'H5c': luts.rule_H5c,
 }
@@ -96,8 +97,27 @@ _p('C11', ['H5a', 'H5b', 'H5c', 'H2'],
                "checks of the selection code.",
    exhaustive=True, floors={'H5a': 1680, 'H5b': 589000, 'H5c': 60})
 
+_p('C04', ['A1', 'A2', 'A3', 'A4', 'A5', 'A6', 'A7', 'A8', 'A9', 'A10', 'F2'],
+   decided=["immutable classes expose no operation that alters their own content (no public name on Bits/ConstBitStream "
+            "has a store effect on self, through self-calls)",
+            "two distinct objects, one of them mutable, never share a store: every `X._bitstore = V` site installs a "
+            "fresh store, or a cached/flagged/borrowed one only where the claiming __init__ follows or both sides are "
+            "provably immutable; the immutable flag is never left on a mutable object's store; constructors claim/flag",
+            "buffers the object was built from are copied on the way in (memory sharing only with a read-only mmap) and "
+            "internal buffers are never handed out (tobitarray)",
+            "derivations through the string-parse cache: cached stores are installed only under construction or in "
+            "immutable objects; promoted operands (views) are never mutated, re-installed or returned",
+            "Array data buffers installed by copy/slice/constructor only"],
+   declined=["bitarray's own copy/share semantics (trusted table); reflection on private attributes by user code"],
+   explanation="Ownership analysis over all _bitstore install sites, flag writes, promoted-operand variables and public "
+               "return values: provenance of every installed store (FRESH/CACHED/BUFFER/MAYBE_SHARED/BORROWED/OWNED) "
+               "against the kind of the target object (LIVE/CONSTRUCTION/VIEW/PRIVATE, flowed along receiver edges of "
+               "the resolved call graph, per concrete class).",
+   floors={'A1': 60, 'A4': 25, 'A5': 100})
+
 
 TECHNIQUE = {
+    'C04': 'ownership/provenance analysis of BitStore installs with object-kind dataflow over the resolved call graph; effect summaries',
     'C11': 'exhaustive table validation against an exact format model (constant folding of luts.py literals); partial evaluation of format constructors',
     'C09': 'call-graph reachability from lru_cache functions to option reads; global-write census; switch-table comparison',
     'C17': 'constant folding of the tofile chunk size; delegation and guard-dominance checks',
